@@ -56,7 +56,8 @@ Lemma find_connected_in : forall queue a poss m x,
 Proof.
   induction queue as [|g rest IH]; intros a poss m x H; cbn [find_connected] in H.
   - inversion H. left. reflexivity.
-  - destruct (2 <? nq g); [discriminate|].
+  - destruct (is_meas g); [eapply IH; eauto|].
+    destruct (2 <? nq g); [discriminate|].
     destruct (nq g =? 2).
     + remember (filter (fun x0 => mem x0 (map (at_ m) (gqs g))) poss) as poss'.
       assert (Sub : forall y, In y poss' -> In y poss).
